@@ -29,7 +29,9 @@ protected:
     {
         if (socket->rawPath() == "/big") {
             // a response much larger than the kernel's socket buffers
-            socket->write(QByteArray(64 * 1024 * 1024, 'x'));
+            // (in pieces, as a copier would: every write after the first meets a transport with a backlog)
+            QByteArray piece(1024 * 1024, 'x');
+            for (int i = 0; i < 64; ++i) socket->write(piece);
             socket->close();
             return;
         }
@@ -63,12 +65,14 @@ void runTls(const Scn &scn, Out &out)
     QStringList *obs = &out.obs;
     bool tls = false, nocert = false;   // nocert: a TLS configuration whose certificate chain is empty
     QString kind; QByteArray payload;
+    int idleMs = 0;     // the client stays silent for this long after the connection is established
     foreach (const QString &t, scn.toks) {
         QStringList p = t.split(':');
         if (p[0] == "tls") tls = true;
         else if (p[0] == "plain") tls = false;
         else if (p[0] == "nocert") nocert = true;
         else if (p[0] == "raw" || p[0] == "ssl") { kind = p[0]; payload = unhx(p[1]); }
+        else if (p[0] == "idle") idleMs = p[1].toInt();
     }
     if (scn.toks.contains("stall")) {
         // one client asks for a huge response and never reads it; handling that request must not
@@ -136,6 +140,11 @@ void runTls(const Scn &scn, Out &out)
         else c.connectToHost(QHostAddress::LocalHost, server->serverPort());
         QElapsedTimer t; t.start();
         while (t.elapsed() < 3000 && !(tls ? c.isEncrypted() : c.state() == QAbstractSocket::ConnectedState)) pump(50);
+        if (idleMs > 0) {
+            // an established connection may stay idle for any time before the request arrives
+            QElapsedTimer idle; idle.start();
+            while (idle.elapsed() < idleMs) { QCoreApplication::processEvents(QEventLoop::AllEvents, 20); QCoreApplication::sendPostedEvents(nullptr, QEvent::DeferredDelete); QThread::msleep(5); }
+        }
         c.write("GET " + payload + " HTTP/1.1\r\n\r\n"); c.flush();
         pump();
         got = c.readAll();
